@@ -330,7 +330,7 @@ func newWorld(c *lib.Ctx, sc kscript, name string) *kworld {
 	w.cond = sync.NewCond(&w.mu)
 	w.ctx, w.cancel = context.WithCancel(context.Background())
 	var fk *kinesisfake.Fake
-	w.fakeSrv, fk = kinesisfake.StartFake()
+	w.fakeSrv, fk = startKinesisFake(c)
 	_ = fk
 	inner := w.fakeSrv.Config.Handler
 	forward := func(count bool) http.Handler {
@@ -346,8 +346,8 @@ func newWorld(c *lib.Ctx, sc kscript, name string) *kworld {
 			inner.ServeHTTP(rw, rq)
 		})
 	}
-	w.splitSrv = httptest.NewServer(forward(true))
-	w.harnSrv = httptest.NewServer(forward(false))
+	w.splitSrv = startHTTP(c, forward(true))
+	w.harnSrv = startHTTP(c, forward(false))
 	w.client = kinesis.NewLocalClient(w.harnSrv.URL)
 	stream := "verif"
 	n := int32(sc.Shards0)
